@@ -821,7 +821,7 @@ def mon_c11(net, obs, opts, mode):
         spread = (max(cps) - min(cps)) / min(cps)
         tol = (spread + 1e-4) * max(mag, abs(q_pump))
         obs.count("loop_closures")
-        obs.maxi("max_loop_closure_rel_dev", abs(-q_pump - parts) / max(mag, 1.0))
+        obs.maxi("max_loop_closure_rel_dev", abs(q_pump - parts) / max(mag, 1.0))
         # the pump adds heat: its own duty m*cp_mean*(Tin - Tout) is negative; reported qext_w is the heat fed in
         s = by_el[(t, idx)]
         own = -duty(s)
